@@ -126,7 +126,10 @@ theorem drvLoop_ops_gen {cfg : DrvCfg} (hp : PostAl3 cfg) (hcls : plainCls cfg.c
     (hJ : ∀ token tl idx st st', J (token :: tl) idx st → drvStep cfg st idx token = .ok st' → J tl (idx + 1) st')
     (hpk : PostKeeps cfg J) {S F : List Node}
     (hS : ∀ x ∈ S, x.isWhitespace = true ∨ cfg.isMatch x = false) (hSh : ∀ c, S.head? = some c → c.isWhitespace = false)
-    (hclose : ∀ c, S.head? = some c → ∀ x, lastNonWs F = some x → NoTake cfg x c) :
+    (hclose : ∀ c, S.head? = some c → ∀ x, lastNonWs F = some x → NoTake cfg x c)
+    (hil : cfg.cls = .IdentifierList →
+      (∀ cur p t n r, cfg.post cur p t n = .ok r → ∃ n', n = some n' ∧ r.2.2 = n') ∧
+      (∀ x, cfg.validNext (some x) = true → isComma x = false)) :
     ∀ (R V : List Node) (idx : Nat) (st st' : DrvSt) (m : Nat), F = V ++ R → Al 0 (R ++ S) idx st m →
       PrefRel 0 (F ++ S) st.cur → J (R ++ S) idx st → HN (R ++ S) idx st → Ops false S (F ++ S) st.cur →
       drvLoop cfg (R ++ S) idx st = .ok st' → Ops false S (F ++ S) st'.cur := by
@@ -216,24 +219,36 @@ theorem drvLoop_ops_gen {cfg : DrvCfg} (hp : PostAl3 cfg) (hcls : plainCls cfg.c
         have hpk' := hpk token (R' ++ S) idx st (by simpa using hj) hnn hmatch pidx _ _ (by rw [htd]; exact hpost)
         simp only [htd] at hpk'
         have hcur1 : ∃ F1, cur1 = F1 ++ S ∧ F1.length = Fc.length ∧ Ops false S (F ++ S) cur1 ∧
-            ∃ y1, cur1[tidx]? = some y1 ∧ y1.isWhitespace = false := by
+            (∃ y1, cur1[tidx]? = some y1 ∧ y1.isWhitespace = false) ∧ ∀ j, j ≠ tidx → cur1[j]? = st.cur[j]? := by
           rcases hpk' with hk | ⟨x, hx, hxw, hk⟩
           · subst hk
-            exact ⟨Fc, hcur, rfl, hops, y0, hy0, hy0w⟩
+            exact ⟨Fc, hcur, rfl, hops, ⟨y0, hy0, hy0w⟩, fun _ _ => rfl⟩
           · subst hk
             have hset := (set_suffix (F := Fc) (S := S) (by rw [← hcur]; exact hx) htidF hxw).1
             rw [← hcur] at hset
-            refine ⟨_, hset, by simp, hops.trans (.retype hcur hx htidF hxw), x.setTType T.Operator, ?_,
-              headRel_notWs (Or.inr (Or.inr rfl)) hxw⟩
+            refine ⟨_, hset, by simp, hops.trans (.retype hcur hx htidF hxw), ⟨x.setTType T.Operator, ?_,
+              headRel_notWs (Or.inr (Or.inr rfl)) hxw⟩, fun j hj => List.getElem?_set_ne (Ne.symm hj)⟩
             rw [List.getElem?_set_self (by omega)]
-        obtain ⟨F1, hcur1e, hF1len, hops1, y1, hy1, hy1w⟩ := hcur1
+        obtain ⟨F1, hcur1e, hF1len, hops1, ⟨y1, hy1, hy1w⟩, hcur1ne⟩ := hcur1
         rcases hto with hto | ⟨n2, hn, hto⟩
         · -- grouped `[from, tidx]`
           have hto' : tidx = toIdx := hto.symm
           subst hto'
           have hshape := groupTokens'_shape hgt hfrom
           simp only at hshape
-          refine ⟨hops1.trans (.group hcur1e hgt hfrom (by omega) hcls ⟨tidx, y1, hfrom, Nat.le_refl _, hy1, hy1w⟩), ?_⟩
+          have hilw : cfg.cls = .IdentifierList → ∃ j x, fromIdx ≤ j ∧ j ≤ tidx ∧ cur1[j]? = some x ∧
+              x.isWhitespace = false ∧ isComma x = false := by
+            intro hc
+            exfalso
+            obtain ⟨n', hn', hto2⟩ := (hil hc).1 _ _ _ _ _ hpost
+            simp only at hto2
+            cases hq : tokenNext st.cur tidx with
+            | none => simp [hq] at hn'
+            | some q =>
+              simp only [hq, Option.map_some, Option.some.injEq] at hn'
+              have := (tokenNext_hit hq).1
+              omega
+          refine ⟨hops1.trans (.group hcur1e hgt hfrom (by omega) hcls ⟨tidx, y1, hfrom, Nat.le_refl _, hy1, hy1w⟩ hilw), ?_⟩
           intro j x hws hx hxw
           rw [hoff1]
           have hflt : fromIdx < cur1.length := (groupTokens'_at hgt).2.2
@@ -301,7 +316,14 @@ theorem drvLoop_ops_gen {cfg : DrvCfg} (hp : PostAl3 cfg) (hcls : plainCls cfg.c
             simp only at hshape
             obtain ⟨hat, hinst, _⟩ := groupTokens'_at hgt
             simp only at hat hinst
-            refine ⟨hops1.trans (.group hcur1e hgt hab (by omega) hcls ⟨tidx, y1, hfrom, by omega, hy1, hy1w⟩), ?_⟩
+            have hilw : cfg.cls = .IdentifierList → ∃ j x, fromIdx ≤ j ∧ j ≤ n3 ∧ cur1[j]? = some x ∧
+                x.isWhitespace = false ∧ isComma x = false := by
+              intro hc
+              refine ⟨n3, k2, hab, Nat.le_refl _, by rw [hcur1ne n3 (by omega)]; exact hk2, hk2w, ?_⟩
+              refine (hil hc).2 k2 ?_
+              rw [hq] at hvalid
+              simpa using hvalid
+            refine ⟨hops1.trans (.group hcur1e hgt hab (by omega) hcls ⟨tidx, y1, hfrom, by omega, hy1, hy1w⟩ hilw), ?_⟩
             intro j x hws hx hxw
             rw [hoff1]
             -- the first non-whitespace element of the rest of the snapshot is the absorbed `next_`
